@@ -131,3 +131,18 @@ prop("C18", "fault_enumeration", (48, 1500),
           "observing panics (catch_unwind), aborts (worker death attributed through a progress file), oversized allocation requests (counting global allocator) and false acceptance.",
      note="Known findings (compressed verification path panics) are listed in known_findings.jsonl by panic site; the plain-path cap-length panic is repaired by a fix: commit. STARK entry points are added with the STARK family.",
      abort_is_violation=True)
+
+prop("C02", "exploration", (300, 5000),
+     rule="one run = one satisfiable base scenario (program x inputs x configuration with q*lde_bits >= 64 x schedule x entropy) handed to a Byzantine prover; a case = one fault: "
+          "a write-event fault (the k-th value a witness generator writes is replaced, generation continues from the faulty value; 6 sampled events, or every event of circuits <= 2^6 rows "
+          "for ~5% of thorough runs; pending-generator order also seeded), a cell fault on the finished matrix with every cell its own partition (written routed/advice wires, row 0, last row, "
+          "unset wires, members of copy classes, public-input cells, looked-up outputs, table cells; +1/0/1/random), or a strategy: H1 all-zero or arbitrary initial permutation accumulator, "
+          "H2 quotient altered for each challenge index, H4 hand-picked grinding witness, H5 altered final polynomial, and H1 combined with a pure copy-class violation. "
+          "Oracle A: the independent statement checker SAT (gate constraints per row, copy classes + sigma cycles, lookup pairs/table rows from table data) says violated, or the strategy "
+          "breaks exactly one verifier check => no accepted proof. Oracle B: any accepted proof carries public inputs equal to the reference evaluator's. "
+          "distinct = (scenario, fault); non-trivial = SAT violated or strategy must-reject (accepted-and-satisfied cases are counted trivial)",
+     technique="deterministic simulation: Byzantine prover with write-event, cell, copy-class faults and adversarial strategy hooks; independent statement checker and reference evaluator as oracles",
+     text="Seeded exploration of a faulty/malicious prover node: single faults are injected into witness generation and into the finished witness, degenerate proving strategies are armed "
+          "through cooperative fault points, the real prover runs the protocol anyway and the real verifier must reject whenever an independent statement checker finds the assignment "
+          "violating (or the strategy breaks a check); accepted proofs must carry reference-correct outputs.",
+     note="SAT trusts the gates' eval_filtered (Oracle B covers constraints dropped consistently from all evaluators for public-deterministic programs). Multiplicity cells cannot be pre-set through the API (set_lookup_wires overwrites them); acceptance probability of a false statement is bounded by 2^-60 per case by the R2/R3 floors.")
